@@ -156,9 +156,24 @@ def run(rng, tier, model_ok):
                         add("round(%s)" % t, "round", x, None, "")
                         add("floor(%s)" % t, "floor", x, None, "")
                         add("ceil(%s)" % t, "ceil", x, None, "")
+    # calls inside the arguments of calls, in every argument position: the digits argument computed by another function, the
+    # value computed by another function, both; the inner call must not disturb what the outer call has already collected
+    fns = {"floor": math.floor, "ceil": math.ceil, "round": half_away}
+    for _ in range(60 if tier == "quick" else 800):
+        x = rng.choice(xs)
+        t = dec_text(x)
+        u = rng.choice(["", "", " m"]) if not t.startswith("(") else ""
+        f2 = rng.choice(sorted(fns))
+        y = Fraction(rng.randint(-45, 45), 10)
+        n = int(fns[f2](y))
+        add("round(%s%s, %s(%s))" % (t, u, f2, dec_text(y)), "round", x, n, u)
+        f1 = rng.choice(sorted(fns))
+        inner = Fraction(fns[f1](x))
+        add("round(%s(%s%s), %s(%s))" % (f1, t, u, f2, dec_text(y)), "round", inner, n, u)
+        add("%s(round(%s%s, %s(%s)))" % (f1, t, u, f2, dec_text(y)), f1, Fraction(half_away(x * Fraction(10) ** n)) / Fraction(10) ** n, None, u)
     def must_fail(reply):
         return None if pipeline.is_error(reply) else {"why": "a wrong number of arguments was accepted"}
-    arity_qs = ["ceil( )"]
+    arity_qs = ["ceil( )", "floor(2.5, ceil(0.5))", "round(2.5, 1, floor(3.5))", "ceil(floor(1.5), 2)", "floor(1, round(2, ceil(0.5)))", "round(floor(1), ceil(2), round(3))"]
     argpool = ["1", "1.5", "2 m", "0", "1.2345", "(1 + 1)", "3"]
     for fn, okn in (("floor", {1}), ("ceil", {1}), ("round", {1, 2}), ("sin", {1}), ("cos", {1})):
         for k in range(0, 6):
@@ -181,7 +196,7 @@ def run(rng, tier, model_ok):
         "evaluations": len(items), "distinct_nontrivial": len(distinct),
         "rule": "rationals: integers, exact halves, values within 1e-6/1e-9 of integers and halves, random decimals and quotients, values "
                 "within one unit in the last place of a round(x, n) boundary; each through floor, ceil, round and round(x, n) with n in -6..6, "
-                "with and without a unit, plus wrong arities; non-trivial = distinct calls with a correct arity",
+                "with and without a unit, calls nested in every argument position, plus wrong arities (also with calls as arguments); non-trivial = distinct calls with a correct arity",
         "samples": [q for q, _ in items[len(corpus) + 40:len(corpus) + 46]],
         "mismatches": mismatches, "failures": failures,
         "extra": {"call_histogram": hist, "model_cases_evaluated_in_coq": ncoq, "exhaustive": False},
